@@ -24,7 +24,7 @@ GUARD = "LIBTINS_VERIF_HOOKS"
 COMMON = ["-std=gnu++14", "-gline-tables-only", "-O1", "-fno-omit-frame-pointer", "-D" + GUARD,
           "-I" + os.path.join(VERIF, "gen"), "-I" + os.path.join(REPO, "include"), "-Wno-deprecated-declarations"]
 CONFIGS = {
-    "san": ["-fsanitize=address,undefined", "-fno-sanitize-recover=undefined", "-fsanitize=fuzzer-no-link",
+    "san": ["-fsanitize=address,undefined", "-fno-sanitize=enum", "-fno-sanitize-recover=undefined", "-fsanitize=fuzzer-no-link",
             "-D_GLIBCXX_SANITIZE_VECTOR"],
     "tsan": ["-fsanitize=thread"],
 }
@@ -353,6 +353,9 @@ def run_worker_slot(bins, mode, w, nworkers, seed, cases, max_seconds, tier, wor
             cmd += ["--seed", str(seed), "--cases", str(cases), "--max-seconds", str(left)]
             if maxlen:
                 cmd += ["--maxlen", str(maxlen)]
+            cdir = os.path.join(VERIF, "corpus", bins["pid"])
+            if os.path.isdir(cdir):
+                cmd += ["--corpus", cdir]
         errp = os.path.join(workdir, "stderr.%d.txt" % wid)
         with open(errp, "w") as ef:
             try:
